@@ -8,6 +8,7 @@ from __future__ import annotations
 
 import copy
 import re
+from fractions import Fraction
 
 import numpy as np
 
@@ -60,6 +61,11 @@ def run(ctx: Ctx):
     for k in range(n):
         sc = scen.gen(ctx.seed * 100000 + 11000 + k, rev=True, layout="sparse", continuous=bool(k % 3 == 0), files=int(r.choice([1, 2, 3])),
                       vertadv=bool(k % 4 == 0))
+        if not sc["continuous"] and k % 2 == 1:
+            # release times between two model times (valid: a row is released at the step that holds its time)
+            for i, row in enumerate(sc["rows"]):
+                if i % 2 == 1 or len(sc["rows"]) == 1:
+                    row["step"] = row["step"] + Fraction(1, 2)
         cases.append(sc)
     jobs = []
     for sc in cases:
